@@ -9,8 +9,12 @@ PROPERTY = "C07"
 LEVEL = "other"
 EXPLANATION = ("E: slot layout tables of both SoCs (roles unique, slots pairwise disjoint, every role of the pinned table present), the list of members removed by "
                "sever(), the +16 class-id offset constant. P: sever() on every subset of the eleven members; EnvelopeStorage.as_intelhex (placement at base+offset, "
-               "0xFF fill to the slot size, only the requested domain, nothing else) for every subset of stored roles. B: the whole `image boot` flow on generated "
-               "envelopes read back with the independent HEX/CBOR readers (add_envelope's byte search and re-encoding identity are decided there). Level `other`.")
+               "0xFF fill to the slot size, only the requested domain, nothing else) for every subset of stored roles; EnvelopeStorage.add_envelope with the REAL "
+               "prepare_suit_data / SuitManifest.from_obj / cbor_dumps / bytes.find executed on description templates with symbolic leaves (component id first / last / "
+               "raw / absent) against a two-key role table and an arbitrary subset of stored roles: exactly one slot {0: 1, 1: off, 2: envelope} is added under the "
+               "role of the manifest's class UUID, the 16 bytes at `off` ARE that UUID, it fits the slot, nothing else changes, and a rejection has one of the stated "
+               "reasons. B: the whole `image boot` flow on generated envelopes read back with the independent HEX/CBOR readers (re-encoding identity of parsed "
+               "envelopes, file writing, configuration over defaults are decided there). Level `other`.")
 FI = "suit_generator/cmd_image.py"
 FE = "suit_generator/envelope.py"
 
@@ -154,6 +158,155 @@ def _placement(it, ctx):
 c.check("placement", _placement)
 c.raises("GeneratorError")
 c.raises("intelhex.AddressOverlapError")  # cannot happen for disjoint slots (E) - listed so that the table obligation carries it
+
+
+# ------------------------------------------------------------------------------------------------
+# add_envelope: the REAL prepare_suit_data / SuitManifest.from_obj / cbor_dumps / bytes.find are executed on a description
+# template with symbolic leaves (vendor and class names or a raw class UUID, sequence number, digest, URI ...), against a role
+# table with two arbitrary keys and a storage holding an arbitrary subset of the eleven roles.
+from pyvc.symdesc import INT, STR, HEXSTR
+
+_Q_ROLES = ["SEC_TOP", "RAD_LOCAL_1", "APP_ROOT", "APP_LOCAL_3"]  # quick tier: one role per domain + the last slot; thorough: all eleven
+AE_ROLES = ROLES if _THOROUGH else _Q_ROLES
+
+
+def _ae_desc(form, pos):
+    comp = {"nsname": ["INSTLD_MFST", {"RFC4122_UUID": {"namespace": STR("vendor"), "name": STR("class")}}],
+            "raw": ["INSTLD_MFST", {"raw": HEXSTR("rawuuid")}], "absent": None}[form]
+    m = {"suit-manifest-version": 1, "suit-manifest-sequence-number": INT("seq")}
+    if comp is not None and pos == "first":
+        m["suit-manifest-component-id"] = comp
+    m["suit-common"] = {"suit-components": [["M", INT("slot", 0, 255)]],
+                        "suit-shared-sequence": [{"suit-directive-override-parameters": {"suit-parameter-vendor-identifier": {"RFC4122_UUID": STR("vendor2")}}}]}
+    m["suit-validate"] = [{"suit-condition-image-match": ["suit-send-record-failure"]}]
+    m["suit-reference-uri"] = STR("ref")  # a member of unbounded length: the stored slot can exceed any slot size
+    if comp is not None and pos == "last":
+        m["suit-manifest-component-id"] = comp
+    return {"SUIT_Envelope_Tagged": {"suit-authentication-wrapper": {"SuitDigest": {"suit-digest-algorithm-id": "cose-alg-sha-256", "suit-digest-bytes": HEXSTR("old_digest")}},
+                                     "suit-manifest": m}}
+
+
+def _ae_envelope(form, pos):
+    def build(it, env):
+        from pyvc.values import VObj
+        leaves = {}
+        d = SD.build(it, _ae_desc(form, pos), leaves)
+        it.c07_leaves, it.c07_form = leaves, form
+        if form == "raw":
+            it.assume(z3.Length(leaves["rawuuid"].e) == 32)  # a UUID: the manifest HAS a class UUID (other lengths: B)
+        o = VObj(it.get_class(FE, "SuitEnvelope"))
+        o.attrs["_envelope"] = d
+        return o
+    return Computed(build)
+
+
+def _ae_storage(cls):
+    inner = _storage(cls).fn
+
+    def build(it, env):
+        from pyvc.values import VDict, DEntry, SymKey
+        from pyvc.types import make_value, Bytes as B
+        o = inner(it, env)
+        d = VDict()
+        for kname, rname in (("K0", "R0"), ("K1", "R1")):
+            k = env.lookup(kname)
+            val = VDict([("vendor_id", make_value(it, B(16), kname + ".vid")), ("class_id", make_value(it, B(16), kname + ".cid")), ("role", env.lookup(rname))])
+            d.entries[SymKey(k)] = DEntry(SymKey(k), val)
+        it.assume(env.lookup("K0").e != env.lookup("K1").e)
+        o.attrs["_assignments"] = d
+        it.c07_old_envelopes = {k.name: (e.present, e.value) for k, e in o.attrs["_envelopes"].entries.items()}
+        return o
+    return Computed(build)
+
+
+c = Contract(FI, "EnvelopeStorage.add_envelope", ["C07"])
+c.ghost("BASE", Int(0, 2 ** 32 - 1))
+c.ghost("K0", Str())
+c.ghost("K1", Str())
+c.ghost("R0", EnumT(FI, "ManifestRole", members=AE_ROLES))
+c.ghost("R1", EnumT(FI, "ManifestRole", members=["APP_ROOT"]))
+c.param("self", _ae_storage("EnvelopeStorageNrf54h20"))
+c.param("envelope", _ae_envelope("nsname", "first"))
+c.variants = [(f"{soc}/{form}/{pos}", {"self": _ae_storage(cls), "envelope": _ae_envelope(form, pos)})
+              for soc, cls in SOCS.items() for form, pos in (("nsname", "first"), ("nsname", "last"), ("raw", "last"), ("absent", "-"))]
+
+
+def _add_envelope_checks(it, ctx):
+    """Read off the final state: exactly one slot {0: 1, 1: off, 2: stored} was added under the role the table gives the manifest's
+    class UUID; the 16 bytes at `off` inside `stored` ARE that UUID; it fits the role's slot; everything else is unchanged.
+    A rejection happens only for: no component id, class not in the table, role already stored, slot too small."""
+    from pyvc.values import VDict, VInt, VBytes
+    from pyvc.stubs_lib import _hexfns  # noqa: F401
+    from pyvc import stubs, cbor
+    from contracts import specs  # noqa: F401
+    lay = {e["role"]: e for e in read_layout(it, it.c07_cls)}
+    slf = ctx.arg("self")
+    leaves, form = it.c07_leaves, it.c07_form
+    K = [ctx.arg("K0"), ctx.arg("K1")]
+    Rn = [ctx.arg("R0").name, ctx.arg("R1").name]
+    old = it.c07_old_envelopes
+    if form == "nsname":
+        import uuid as _uuid
+        uuid = stubs.UUID5(stubs.UUID5(VBytes(_uuid.NAMESPACE_DNS.bytes).e, leaves["vendor"].e), leaves["class"].e)
+    elif form == "raw":
+        uuid = stubs.UNHEX(leaves["rawuuid"].e)
+    else:
+        uuid = None
+    goals = []
+    if ctx.outcome == "raise":
+        if ctx.exc.__name__ != "GeneratorError":
+            return None
+        if uuid is None:
+            return [("rejected_for_a_stated_reason", z3.BoolVal(True))]
+        hx = stubs.HEX(uuid)
+        not_in_table = z3.And(hx != K[0].e, hx != K[1].e)
+        reasons = [not_in_table]
+        slot_terms = [(t, v) for t, v in getattr(it, "enc_origin_terms", {}).values() if isinstance(v, VDict) and sorted(map(str, it.dict_keys(v))) == ["0", "1", "2"]]
+        for i in (0, 1):
+            pres = old[Rn[i]][0]
+            reasons.append(z3.And(hx == K[i].e, pres if pres is not True else z3.BoolVal(True)))
+            for t, _ in slot_terms:
+                reasons.append(z3.And(hx == K[i].e, z3.Length(t) > lay[Rn[i]]["size"]))
+        return [("rejected_for_a_stated_reason", z3.Or(*reasons))]
+    if uuid is None:
+        return [("missing_component_id_is_rejected", z3.BoolVal(False))]
+    hx = stubs.HEX(uuid)
+    env = slf.attrs["_envelopes"]
+    now = {k.name: e for k, e in env.entries.items()}
+    # which role was written on this path?
+    changed = [r for r in now if not (now[r].value is old[r][1] and (now[r].present is old[r][0] or (now[r].present is not True and old[r][0] is not True and z3.eq(now[r].present, old[r][0]))))]
+    goals.append(("exactly_one_role_written", z3.BoolVal(len(changed) == 1 and len(now) == len(old))))
+    if len(changed) != 1:
+        return goals
+    role = changed[0]
+    goals.append(("role_is_the_one_assigned_to_the_manifests_class_uuid", z3.Or(*[z3.And(hx == K[i].e, z3.BoolVal(Rn[i] == role)) for i in (0, 1)])))
+    goals.append(("role_was_free", z3.Not(old[role][0]) if old[role][0] is not True else z3.BoolVal(False)))
+    goals.append(("entry_present_afterwards", z3.BoolVal(now[role].present is True)))
+    stored = now[role].value
+    goals.append(("fits_the_slot", z3.Length(stored.e) <= lay[role]["size"]))
+    o = SD.origin(it, stored)
+    ok_shape = isinstance(o, VDict) and sorted(map(str, it.dict_keys(o))) == ["0", "1", "2"]
+    goals.append(("slot_is_a_map_of_version_offset_envelope", z3.BoolVal(ok_shape)))
+    if not ok_shape:
+        return goals
+    ent = {str(k): o.entries[k].value for k in it.dict_keys(o)}
+    goals.append(("slot_version_is_1", ent["0"].e == 1 if isinstance(ent["0"], VInt) else z3.BoolVal(False)))
+    if not (isinstance(ent["1"], VInt) and isinstance(ent["2"], VBytes)):
+        goals.append(("offset_and_envelope_types", z3.BoolVal(False)))
+        return goals
+    off, sev = ent["1"].e, ent["2"].e
+    goals.append(("the_16_bytes_at_the_recorded_offset_are_the_class_uuid", z3.And(off >= 0, off + 16 <= z3.Length(sev), z3.Extract(sev, off, 16) == uuid)))
+    # the stored envelope is the tagged envelope created from the description (digest wrapper + manifest for this template)
+    e = SD.origin(it, ent["2"])
+    from pyvc.values import VTag
+    goals.append(("stored_bytes_are_the_created_tagged_envelope", z3.BoolVal(isinstance(e, VTag) and e.tag.conc == R.TAGS["SUIT_Envelope_Tagged"])))
+    return goals
+
+
+c.check("slot", _add_envelope_checks)
+c.feas_timeout_ms = 400  # table-key comparisons are satisfiable either way; the solver only finds out slowly in this context
+c.raises("GeneratorError")
+c.raises("ValueError")  # descriptions the encoder rejects
 
 
 # ================================================================================================
